@@ -1160,3 +1160,25 @@ impl Searcher {{
                         'get_function_value return preset values, HashMap is an association list, calc records its operands'],
                        'get_field_value, get_function_value, Display for Expr (verified separately as C15.display.*), ArithmeticOp::calc (C15.calc.table)')
     return dict(functions=[r], dropped=[d])
+
+
+def unit_rowproto(inj, scratch):
+    """ResultsWriter::write_row (whole body, verbatim) on a shim writer that records the formatter protocol."""
+    frag_begin(inj)
+    s = src('src/output/mod.rs', scratch)
+    it = s.fn('write_row', impl='ResultsWriter')
+    body = dedent(s.text[it['open']:it['end']])
+    text = f'''pub mod rowproto {{
+{H('frag_rowproto_prelude.rs')}
+impl ResultsWriter {{
+    // ---- verbatim: body of ResultsWriter::write_row ----
+    pub fn write_row(&mut self, writer: &mut dyn Write, values: Vec<(String, String)>) -> std::io::Result<()> {body}
+}}
+{H('frag_rowproto.kani.rs')}
+}}
+'''
+    inj.new_file(FRAG_FILE, text)
+    r, d = frag_record('rowproto::ResultsWriter::write_row', 'src/output/mod.rs', 'impl ResultsWriter / fn write_row (whole body, verbatim, on a shim writer)',
+                       body, body, ['write_row_start / write_row_item / write_row_end -> recording stubs; dyn Write -> marker trait'],
+                       'the formatter calls behind write_row_item (verified per formatter under C09.*.cell), write! to the real writer')
+    return dict(functions=[r], dropped=[d])
